@@ -71,8 +71,32 @@ def gen_one(rng, direction, k):
 REQ_SPECIAL_L = set(n.lower() for n in REQ_SPECIAL)
 
 
+def gen_reval(rng, k):
+    """a cacheable 200 (`headers`) later revalidated by an origin 304 carrying `fresh` fields"""
+    base = gen_one(rng, "resp", k)
+    # (Set-Cookie is deliberately removed from hits by buildReplyHeader; it is not a hop-by-hop matter)
+    old = [h for h in base["headers"] if h[0].lower() not in ("etag", "set-cookie")]
+    old += [["ETag", "\"r%d\"" % k], ["Cache-Control", "max-age=1000"]]
+    f = gen_one(rng, "resp", k + 100000)
+    fresh = [h for h in f["headers"] if h[0].lower() not in ("etag", "set-cookie", "content-type")]
+    # some 304 fields replace stored ones of the same name
+    for n, v in old:
+        if n.lower() not in ("connection", "etag", "cache-control") and rng.random() < 0.3:
+            fresh.append([randcase(rng, n), "n" + v])
+    oldpairs = set((n.lower(), v) for n, v in old)
+    for h in fresh:                            # keep (name, value) pairs of the two messages distinguishable
+        if (h[0].lower(), h[1]) in oldpairs and h[0].lower() != "connection":
+            h[1] = "n" + h[1]
+    fresh.append(["X-Rev", "rev%d" % k])      # guarantees that the stored header is really updated
+    rng.shuffle(fresh)
+    return {"dir": "reval", "method": "GET", "headers": old, "fresh": fresh}
+
+
 def gen_scenarios(rng, n):
-    return [gen_one(rng, "req" if k % 2 == 0 else "resp", k) for k in range(n)]
+    out = []
+    for k in range(n):
+        out.append(gen_reval(rng, k) if k % 4 == 3 else gen_one(rng, "req" if k % 2 == 0 else "resp", k))
+    return out
 
 
 def hexs(s):
@@ -84,6 +108,8 @@ def to_case(s):
     hs = " ".join("%s:%s" % (hexs(n), hexs(v)) for n, v in s["headers"])
     if s["dir"] == "resp":
         return "hop.resp " + hs
+    if s["dir"] == "reval":
+        return "hop.reval " + hs + " / " + " ".join("%s:%s" % (hexs(n), hexs(v)) for n, v in s["fresh"])
     return "hop.req %d %s" % (1 if s["method"] in ("OPTIONS", "TRACE") else 0, hs)
 
 
@@ -100,6 +126,16 @@ def _one(args):
         if not arr:
             return "noarrival %s" % (r.status if r else "none")
         got = [(n.lower(), v) for n, v in arr[0]["headers"]]
+    elif s["dir"] == "reval":
+        url = org.url({"body": "ok", "headers": hs, "nth": {"2": {"status": 304, "headers": s["fresh"]}}}, rid)
+        r, raw = lab.get(sq.port, url)
+        if r is None or r.status != 200:
+            return "noreply %s" % (r.status if r else "none")
+        r, raw = lab.get(sq.port, url, headers=[("Cache-Control", "max-age=0")])
+        if r is None or r.status != 200 or len(org.arrivals(rid)) != 2:
+            return "noreval %s arrivals=%d" % (r.status if r else "none", len(org.arrivals(rid)))
+        got = [(n.lower(), v) for n, v in r.headers]
+        hs = hs + s["fresh"]
     else:
         url = org.url({"body": "ok", "headers": hs}, rid)
         r, raw = lab.get(sq.port, url)
@@ -119,7 +155,7 @@ def _one(args):
 def run_impl(L, scenarios):
     if "sq" not in _state or not _state["sq"].alive():
         _state["org"] = L.origin()
-        _state["sq"] = L.squid(extra_conf="cache deny all\n")
+        _state["sq"] = L.squid()
         _state["n"] = 0
     sq, org = _state["sq"], _state["org"]
     jobs = []
@@ -140,14 +176,21 @@ def oracle(s, obs):
     if not obs.startswith("kept"):
         return ("oracle:no-transaction", "the transaction did not complete: " + obs)
     kept = [] if obs == "kept -" else [int(x) for x in obs.split()[1].split(",")]
-    hs = s["headers"]
-    named = set()
-    for n, v in hs:
-        if n.lower() == "connection":
-            for el in v.split(","):
-                el = el.strip(" \t").lower()
-                if el:
-                    named.add(el)
+    hs = s["headers"] + s.get("fresh", [])
+    def names_of(fields):
+        out = set()
+        for n, v in fields:
+            if n.lower() == "connection":
+                for el in v.split(","):
+                    el = el.strip(" \t").lower()
+                    if el:
+                        out.add(el)
+        return out
+    # a Connection field nominates fields of ITS OWN message: on the revalidation path the stored 200 and the
+    # 304 are two received messages
+    nold = len(s["headers"])
+    named_old = names_of(s["headers"])
+    named_new = names_of(s.get("fresh", []))
     for i in kept:
         n = hs[i][0].lower()
         if n in STD_NAMES:
@@ -156,7 +199,15 @@ def oracle(s, obs):
             return ("oracle:proxy-authorization-to-origin", "the client's Proxy-Authorization reached the origin")
         if n == "transfer-encoding":
             return ("oracle:transfer-encoding-copied", "a received Transfer-Encoding field was copied")
-        if n in named:
+        if s["dir"] == "reval":
+            if i < nold and n in named_old:
+                return ("oracle:reval-stored-conn-named-relayed",
+                        "field %s of the stored response was named by that response's Connection header but is relayed "
+                        "after the revalidation" % hs[i][0])
+            if i >= nold and n in named_new:
+                return ("oracle:reval-304-conn-named-relayed",
+                        "field %s of the 304 is named by the 304's Connection header but was merged and relayed" % hs[i][0])
+        elif n in named_old:
             return ("oracle:conn-named-forwarded:" + n,
                     "field %s is named by a received Connection header but was relayed (%s direction)" % (hs[i][0], s["dir"]))
     return None
